@@ -213,6 +213,7 @@ func c02Opts(rng *lib.Rand, idx uint64) lib.GenOpts {
 		BigEndian:     50,
 		Unknown:       30,
 		BigFileId:     4,
+		RepeatPrev:    8,
 		ZeroFieldDefs: 3,
 		RedefSimilar:  30,
 		// some records behind compressed-timestamp headers: a wire field must decode to its wire
